@@ -3,7 +3,7 @@
    counts under the ORIGINAL labels, n events.  Statements only; proofs in Proofs/C02_Oscar.v. *)
 From Coq Require Import List String ZArith QArith Bool Arith.
 From SX Require Import Lib.Strs Gen.GenParticleMap Model.Oscar Model.OscarDoc Model.Jetscape Model.JetscapeDoc
-  Proofs.C01_Oscar Proofs.C02_Oscar Proofs.C02_Jetscape.
+  Proofs.C01_Oscar Proofs.C02_Oscar Proofs.C02_Jetscape Proofs.C02_Filter.
 Import ListNotations.
 
 Theorem C02_oscar_range :
@@ -65,3 +65,26 @@ Theorem C02_jetscape_range :
   = Ok (jsliced tok_float tok_int pdg_valid pdg_charge usqrt d s1 s2 a (b - a + 1)).
 Proof. exact jload_range. Qed.
 Print Assumptions C02_jetscape_range.
+
+(* with a constructor filter f (ANY function on one event's particle list): select, then filter.
+   Every selected event is filtered on its own; an event the filter empties is dropped unless it was empty in the
+   file; the count rows are those of the events kept, labelled consecutively from the first selected label *)
+Theorem C02_oscar_range_with_filter :
+  forall tok_float tok_int pdg_valid (f : list particle -> list particle) d fmt attrs (a b : nat),
+  wf tok_float tok_int pdg_valid d fmt attrs -> (a <= b)%nat -> (b < List.length (d_events d))%nat ->
+  load tok_float tok_int pdg_valid (Some f) (render d) (SelRange (Z.of_nat a) (Z.of_nat b))
+  = Ok (filtered tok_float tok_int pdg_valid f d fmt attrs a (b - a + 1)).
+Proof. exact load_range_filtered. Qed.
+Print Assumptions C02_oscar_range_with_filter.
+
+Theorem C02_filtered_is_select_then_filter :
+  forall tok_float tok_int pdg_valid (f : list particle -> list particle) d fmt attrs a n,
+  match l_events (filtered tok_float tok_int pdg_valid f d fmt attrs a n) with
+  | [[]] => kept f (l_events (sliced tok_float tok_int pdg_valid d fmt attrs a n)) = [] \/
+            kept f (l_events (sliced tok_float tok_int pdg_valid d fmt attrs a n)) = [[]]
+  | evs => evs = kept f (l_events (sliced tok_float tok_int pdg_valid d fmt attrs a n))
+  end /\
+  map snd (l_counts (filtered tok_float tok_int pdg_valid f d fmt attrs a n))
+  = map (fun ev => Z.of_nat (List.length ev)) (kept f (l_events (sliced tok_float tok_int pdg_valid d fmt attrs a n))).
+Proof. exact filtered_is_select_then_filter. Qed.
+Print Assumptions C02_filtered_is_select_then_filter.
